@@ -138,9 +138,22 @@ Definition three_halves : dy := (3%Z, (-1)%Z).
 Definition grid_ox (g : ginput) : dy := dy_sub (fold_pts_min fst (g_pts g)) (dy_mul three_halves (g_cx g)).
 Definition grid_oy (g : ginput) : dy := dy_sub (fold_pts_min snd (g_pts g)) (dy_mul three_halves (g_cy g)).
 (** general position: no vertex of the boundary on a grid line *)
+Definition zrange (lo hi : Z) : list Z := map (fun k => (lo + Z.of_nat k)%Z) (seq 0 (Z.to_nat (hi - lo + 1))).
+Definition dy_of_Z (z : Z) : dy := (z, 0%Z).
+(** ... and no segment of the boundary through a corner of the grid (the kernel has a code path for that case,
+    outside the property's premise: it leaves a hole in its table of intersections and then mis-numbers them) *)
+Definition seg_through_corner (g : ginput) (a c : pt) : bool :=
+  let qx p := dy_quot (dy_sub (fst p) (grid_ox g)) (g_cx g) in
+  let qy p := dy_quot (dy_sub (snd p) (grid_oy g)) (g_cy g) in
+  existsb (fun i => existsb (fun j =>
+      let L : pt := (dy_add (grid_ox g) (dy_mul (dy_of_Z i) (g_cx g)), dy_add (grid_oy g) (dy_mul (dy_of_Z j) (g_cy g))) in
+      Z.eqb (dy_sgn (dy_cross a c L)) 0)
+    (zrange (Z.min (qy a) (qy c)) (Z.max (qy a) (qy c) + 1)))
+    (zrange (Z.min (qx a) (qx c)) (Z.max (qx a) (qx c) + 1)).
 Definition general_position_grid (g : ginput) : bool :=
   forallb (fun p => negb (dy_multiple (dy_sub (fst p) (grid_ox g)) (g_cx g)) &&
-                    negb (dy_multiple (dy_sub (snd p) (grid_oy g)) (g_cy g))) (g_pts g).
+                    negb (dy_multiple (dy_sub (snd p) (grid_oy g)) (g_cy g))) (g_pts g) &&
+  forallb (fun s => negb (seg_through_corner g (fst s) (snd s))) (seg_pts g).
 Definition cell_of_pt (g : ginput) (p : pt) : Z * Z :=
   (dy_quot (dy_sub (fst p) (grid_ox g)) (g_cx g), dy_quot (dy_sub (snd p) (grid_oy g)) (g_cy g)).
 (** a loop that crosses no grid line (all its vertices in one cell) *)
@@ -172,14 +185,25 @@ Definition ends_of (st : state2) (d : N) : option (pt * pt) :=
 Fixpoint dedup_dy (l : list dy) : list dy :=
   match l with [] => [] | x :: r => if existsb (dy_eqb x) r then dedup_dy r else x :: dedup_dy r end.
 
+(** two edges of the result cross properly (exact test) *)
+Definition proper_cross (a c d e : pt) : bool :=
+  (dy_sgn (dy_cross a c d) * dy_sgn (dy_cross a c e) <? 0)%Z && (dy_sgn (dy_cross d e a) * dy_sgn (dy_cross d e c) <? 0)%Z.
+Definition edges_cross (st : state2) : bool :=
+  let es := flat_map (fun e => match ends_of st e with Some pq => [pq] | None => [] end) (ids_of st PEdge (mesh_darts st)) in
+  existsb (fun e1 => existsb (fun e2 => proper_cross (fst e1) (snd e1) (fst e2) (snd e2)) es) es.
+
 (* classes: 1 refused or crashed on a valid boundary, 2 ill-formed / not embedded / open face,
    3 negatively oriented face, 4 faces do not tile the grid rectangle, 5 a point of interest is not a vertex,
    6 a crossing with a grid line is not a vertex, 7 kept area differs from the area of the kept side,
    8 mis-oriented boundary accepted, 9 an input segment is not covered by free boundary edges,
-   10 C16:loop-inside-one-cell-dropped (the missing points of interest belong to loops that cross no grid line) *)
+   10 C16:loop-inside-one-cell-dropped (the missing points of interest belong to loops that cross no grid line),
+   18 C16:dropped-corner-chords-cross (negative face, some corner is not a point of interest, two edges of the result cross) *)
 Definition check16 (g : ginput) (st : state2) : N :=
   if negb (wf2b (nd st) (mem st) && fully_embedded st && all_closed st) then 2 else
-  if existsb (fun a => (dy_sgn a <? 0)%Z) (face_area2s st) then 3 else
+  if existsb (fun a => (dy_sgn a <? 0)%Z) (face_area2s st) then
+    (* known finding: corners that are not points of interest are cut off by straight chords between grid
+       crossings; around a feature thinner than a cell two such chords can cross each other *)
+    (if negb (Nat.eqb (length (g_poi g)) (length (g_pts g))) && edges_cross st then 18 else 3) else
   let ps := out_pts st in
   let minx := fold_pts dy_min fst ps in let maxx := fold_pts dy_max fst ps in
   let miny := fold_pts dy_min snd ps in let maxy := fold_pts dy_max snd ps in
